@@ -120,7 +120,16 @@ pub fn gen_unary(r: &mut Rng, k: u64) -> OpCase {
     let vals = match dom {
         0 => rand_ints(r, n, -4, 4),
         1 => (0..n).map(|_| 0.25 * r.int(-12, 12)).collect(),
-        2 => rand_pos(r, n),
+        2 => {
+            // integer exponents are defined for negative bases too
+            if matches!(kind, OpKind::Powf(e) if e.fract() == 0.0) && r.chance(1, 2) {
+                rand_quarters_nz(r, n)
+            } else if matches!(kind, OpKind::Recip) && r.chance(1, 2) {
+                rand_quarters_nz(r, n)
+            } else {
+                rand_pos(r, n)
+            }
+        }
         3 => (0..n).map(|_| 0.25 * r.int(-12, 12)).collect(),
         _ => (0..n).map(|_| if r.chance(1, 8) { 0.0 } else { let m = r.int(1, 4); if r.chance(1, 2) { m } else { -m } }).collect(),
     };
@@ -143,7 +152,7 @@ pub fn gen_binary(r: &mut Rng, k: u64) -> Option<OpCase> {
         x => ops[2 + ((pair + x) % 3) as usize].clone(),
     };
     let va = rand_ints(r, numel(&da), -4, 4);
-    let vb = if kind == OpKind::Div { rand_pos(r, numel(&db)) } else { rand_ints(r, numel(&db), -4, 4) };
+    let vb = if kind == OpKind::Div { if r.chance(1, 2) { rand_pos(r, numel(&db)) } else { rand_quarters_nz(r, numel(&db)) } } else { rand_ints(r, numel(&db), -4, 4) };
     let mask = mask_of(2, r.below(3));
     let cell = format!("{}|{}", kind.family(), super::c04::pair_class(&da, &db));
     Some(OpCase { kind, dims: vec![da, db], vals: vec![va, vb], mask, cell })
